@@ -656,7 +656,7 @@ fn compile_tx_body(
         inputs: compile_inputs(tx)?.into(),
         outputs: compile_outputs(tx, network)?,
         fee: coercion::number_into_u64(coercion::expr_into_number(&tx.fees)?, "fee")?,
-        certificates: primitives::NonEmptySet::from_vec(compile_certs(tx, network)?),
+        certificates: primitives::NonEmptySet::from_vec(distinct(compile_certs(tx, network)?)),
         mint: compile_mint_block(tx)?,
         reference_inputs: primitives::NonEmptySet::from_vec(compile_reference_inputs(tx)?),
         network_id: Some(network),
